@@ -137,7 +137,7 @@ def check(ctx):
         ok = got <= want
         ctx.ob("ALG.join-side.broadcast", bj, f"broadcasting the {side} input is chosen only for how in {sorted(want)}", ok, "" if ok else f"also for {sorted(got - want)}: every matching row of the {side} input is emitted once per partition of the other input that holds its key")
     bs = merge.own_methods.get("broadcast_side")
-    ok = bs is not None and any(Pat("'left' if self.left.npartitions < self.right.npartitions else 'right'").match(r.value) is not None for r in returns(bs))
+    ok = bs is not None and (all(Pat("'left' if self.left.npartitions < self.right.npartitions else 'right'").match(r.value) is not None for r in returns(bs)) and bool(returns(bs)))
     ctx.ob("ALG.join-side.broadcast-side", bs or merge.node, "the smaller input is the broadcast side", ok)
     ctx.count("side_conditioned_how_tests", n_side)
     ctx.floor("side_conditioned_how_tests", 8)
